@@ -136,9 +136,28 @@ fn explore_scenario(
     replay: Option<Vec<usize>>,
     verbose: bool,
 ) -> ScenarioResult {
+    explore_scenario_until(scn, flags, max_exec, replay, verbose, None)
+}
+
+fn explore_scenario_until(
+    scn: &Scenario,
+    flags: Flags,
+    max_exec: u64,
+    replay: Option<Vec<usize>>,
+    verbose: bool,
+    deadline: Option<Instant>,
+) -> ScenarioResult {
     let exp: Arc<Vec<Expected>> = Arc::new((0..scn.chains).map(|c| expected_for(scn, c)).collect());
     let acc: Arc<Mutex<Partial>> = Arc::new(Mutex::new(Partial::new()));
     let state = Arc::new(Mutex::new(DfsState::new(scn.bound, max_exec)));
+    let violating = {
+        let mut s = state.lock().unwrap();
+        s.deadline = deadline;
+        // a scenario with this many violating schedules is refuted; exploring the rest of its
+        // schedule tree only costs time (a broken controller can make that tree very large)
+        s.max_violating = 50;
+        s.violating.clone()
+    };
     if let Some(r) = &replay {
         let mut s = state.lock().unwrap();
         s.replay_only = true;
@@ -185,6 +204,9 @@ fn explore_scenario(
                 }));
             }
             a.class(verdict.class);
+            if !verdict.violations.is_empty() {
+                violating.fetch_add(1, std::sync::atomic::Ordering::Relaxed);
+            }
             for (k, d) in verdict.violations {
                 a.violation(
                     k,
@@ -235,6 +257,12 @@ fn explore_scenario(
         partial
             .caps
             .insert(format!("execution cap {} hit in scenario {}", max_exec, scn.name));
+    }
+    if st.deadline_hit {
+        partial.caps.insert(format!("wall budget reached while exploring scenario {} ({} schedules done)", scn.name, st.stats.executions));
+    }
+    if st.stopped_after_violations {
+        partial.count("scenarios_abandoned_after_50_violating_schedules", 1);
     }
     ScenarioResult {
         partial,
@@ -621,7 +649,7 @@ fn main() {
             return;
         }
         let ts = Instant::now();
-        let r = explore_scenario(scn, flags, max_exec, None, false);
+        let r = explore_scenario_until(scn, flags, max_exec, None, false, Some(t0 + std::time::Duration::from_secs_f64(budget_s)));
         if std::env::var("VERIF_VERBOSE").is_ok() {
             eprintln!(
                 "scenario {} bound={} executions={} violations={} {:.2}s",
